@@ -19,6 +19,7 @@ import (
 	"fmt"
 	"github.com/modelcontextprotocol/go-sdk/jsonrpc"
 	"io"
+	"log/slog"
 	"net/http"
 	"reflect"
 	"strings"
@@ -33,7 +34,7 @@ import (
 
 type c03Op struct {
 	N        int    `json:"n"`
-	Kind     string `json:"kind"` // notify | call | roots (client.AddRoots: notifications/roots/list_changed)
+	Kind     string `json:"kind"` // notify | call | roots (client.AddRoots: notifications/roots/list_changed) | log (s2c: one record through the session's slog LoggingHandler, rate limit configured: notifications/message)
 	Dur      int    `json:"dur_ms"`
 	Gap      int    `json:"gap_ms"`                 // sender pause before issuing this op
 	Callback bool   `json:"callback,omitempty"`     // notify: the handler calls back into the peer with its own context before it goes on working
@@ -65,6 +66,9 @@ type c03Spec struct {
 	// ("sender", the receiver sees the end of its input). Whether what is queued then still runs is not fixed; the order
 	// among the handlers that do run is.
 	EarlyClose string `json:"early_close,omitempty"`
+	// InitdDur (c2s, legacy handshake): the server's InitializedHandler takes this long; notifications/initialized is a
+	// notification like any other: what the client sends once Connect has returned waits for it
+	InitdDur int `json:"initd_dur_ms,omitempty"`
 }
 
 func genC03(r *vh.Rand) c03Spec {
@@ -115,6 +119,22 @@ func genC03(r *vh.Rand) c03Spec {
 	if s.Mode != "raw-init" && (s.Transport == "mem" || s.Transport == "pipe") && r.Chance(1, 6) {
 		s.EarlyClose = r.Choose("receiver", "sender")
 	}
+	if s.Mode == "c2s" && s.Version != "" && (s.Transport == "mem" || s.Transport == "pipe") && r.Chance(1, 4) {
+		s.InitdDur = r.Range(1, 6)
+	}
+	if s.Mode == "s2c" && s.EarlyClose == "" && r.Chance(1, 3) {
+		// one of the notifications is a log record instead (one only: the handler's rate limit drops records that
+		// follow one another within its interval)
+		var cand []int
+		for i, op := range s.Ops {
+			if op.Kind == "notify" && !op.Callback && !op.Fault503 {
+				cand = append(cand, i)
+			}
+		}
+		if len(cand) > 0 {
+			s.Ops[cand[r.Intn(len(cand))]].Kind = "log"
+		}
+	}
 	for _, op := range s.Ops {
 		if op.Kind == "roots" && s.Bystanders == 0 && r.Bool() {
 			s.Bystanders = r.Range(1, 3)
@@ -152,6 +172,14 @@ func TestVerifC03(t *testing.T) {
 func c03Nonce(req mcp.Request) int {
 	p := req.GetParams()
 	if p == nil || reflect.ValueOf(p).IsNil() {
+		return 0
+	}
+	if v, ok := any(p).(*mcp.LoggingMessageParams); ok {
+		if m, ok := v.Data.(map[string]any); ok {
+			if f, ok := m["nonce"].(float64); ok {
+				return int(f)
+			}
+		}
 		return 0
 	}
 	if v, ok := any(p).(*mcp.CallToolParamsRaw); ok {
@@ -240,7 +268,15 @@ func runC03(c *vh.Case, spec c03Spec) {
 	for _, op := range spec.Ops {
 		dur[op.N] = ms(op.Dur)
 	}
-	server := mcp.NewServer(&mcp.Implementation{Name: "s", Version: "1"}, nil)
+	var sopts *mcp.ServerOptions
+	if spec.InitdDur > 0 {
+		sopts = &mcp.ServerOptions{InitializedHandler: func(context.Context, *mcp.InitializedRequest) {
+			log.Add("initd-handler-start")
+			time.Sleep(ms(spec.InitdDur))
+			log.Add("initd-handler-finish")
+		}}
+	}
+	server := mcp.NewServer(&mcp.Implementation{Name: "s", Version: "1"}, sopts)
 	server.AddTool(&mcp.Tool{Name: "work", InputSchema: json.RawMessage(`{"type":"object"}`)}, func(ctx context.Context, req *mcp.CallToolRequest) (*mcp.CallToolResult, error) {
 		return &mcp.CallToolResult{Content: []mcp.Content{&mcp.TextContent{Text: "ok"}}}, nil
 	})
@@ -352,6 +388,16 @@ func runC03(c *vh.Case, spec c03Spec) {
 		defer ocs.Close()
 		c.Count("bystander_sessions", 1)
 	}
+	var slogger *slog.Logger
+	for _, op := range spec.Ops {
+		if op.Kind == "log" && slogger == nil {
+			if err := cs.SetLoggingLevel(ctx, &mcp.SetLoggingLevelParams{Level: "debug"}); err != nil {
+				c.Inconclusive("logging/setLevel: %v", err)
+				return
+			}
+			slogger = slog.New(mcp.NewLoggingHandler(ss, &mcp.LoggingHandlerOptions{MinInterval: time.Microsecond}))
+		}
+	}
 	synctestWait()
 	var calls sync.WaitGroup
 	for _, op := range spec.Ops {
@@ -360,6 +406,12 @@ func runC03(c *vh.Case, spec c03Spec) {
 			time.Sleep(ms(op.Gap))
 		}
 		log.Add("send", "n", op.N, "kind", op.Kind)
+		if op.Kind == "log" {
+			slogger.Info("op", "nonce", op.N)
+			log.Add("api-return", "n", op.N)
+			c.Count("log_records_among_the_notifications", 1)
+			continue
+		}
 		if op.Kind == "roots" {
 			rpmu.Lock()
 			rootsPending = append(rootsPending, op.N)
@@ -671,6 +723,9 @@ func decideC03(c *vh.Case, spec c03Spec) {
 			continue
 		}
 		kind := op.Kind
+		if kind == "log" {
+			kind = "notify"
+		}
 		if kind == "roots" {
 			kind = "notify"
 			arriveAfter[op.N] = int64(op.WriteMs) * 1000
@@ -679,6 +734,16 @@ func decideC03(c *vh.Case, spec c03Spec) {
 	}
 	// reference dispatcher
 	var free int64
+	if spec.InitdDur > 0 {
+		// the dispatcher is taken until the InitializedHandler has returned
+		fin := c.Log.Find("initd-handler-finish")
+		if len(fin) != 1 {
+			c.Violate("message-not-dispatched", "the server's InitializedHandler ran %d time(s) after a legacy handshake", len(fin))
+			return
+		}
+		free = fin[0].T
+		c.Count("slow_initialized_handlers", 1)
+	}
 	barrier, overlap := false, false
 	for i, it := range seq {
 		sv, ok := send[it.n]
